@@ -28,33 +28,42 @@ def run(rep, prog, tier):
     harmonic(rep, prog)
 
 
+FREQ_SPEC = ("sorted(set([f for c in circuit.components for f in "
+             "([c.value['w']*n for n in arange(floor(w_max/c.value['w']) + 1)] if (c.type == 'periodic_voltage_source' or c.type == 'periodic_current_source') else [c.value['w']])]))")
+
+
 def freqs(rep, prog):
     f = prog.func(CC, 'frequency_components')
-    inner = prog.funcs.get(f'{CC}::frequency_components.frequencies')
     site = f.site
-    if inner is None:
-        rep.ob('R09.freqs', 'per-component', None, 'nested function `frequencies` not found', site)
-    else:
-        ev = Evaluator(prog, real_atoms={'w_max'})
-        env = {'__parent__': None, 'w_max': A('w_max')}
-        t = ev.call_fn(inner.node, inner.mod, [A('c')], {}, env, 1)
-        sp = spec(ev, "[c.value['w']*n for n in arange(floor(w_max/c.value['w']) + 1)] if (c.type == 'periodic_voltage_source' or c.type == 'periodic_current_source') else [c.value['w']]",
-                  {'c': A('c'), 'w_max': A('w_max'), 'arange': __import__('cc.terms', fromlist=['Ref']).Ref('npfun', None, None, 'arange')}, f.mod)
-        rep.ob('R09.freqs', 'per-component', compare_terms(t, sp), f'= {t!r:.300}', inner.site, lhs=t, rhs=sp)
-        # components without a frequency: KeyError handler returns the empty list
-        handlers = [h for n in ast.walk(inner.node) if isinstance(n, ast.Try) for h in n.handlers]
-        okh = any(ast.unparse(h.type) == 'KeyError' and len(h.body) == 1 and isinstance(h.body[0], ast.Return) and ast.unparse(h.body[0].value) == '[]' for h in handlers if h.type is not None)
-        rep.ob('R09.freqs', 'no-frequency', okh, 'components without a frequency contribute no entry', inner.site)
-    # merge: sorted, duplicate-free union over all components
     ev = Evaluator(prog, real_atoms={'w_max'})
     t = call(ev, f, [A('circuit'), A('w_max')])
+    from ..terms import Ref
+    sp = spec(ev, FREQ_SPEC, {'circuit': A('circuit'), 'w_max': A('w_max'), 'arange': Ref('npfun', None, None, 'arange')}, f.mod)
+    def strip(x, names):
+        while isinstance(x, Opq) and x.k and x.k[0] in names and len(x.k) == 2: x = x.k[1]
+        return x
+    core_t, core_s = strip(t, ('sorted', 'list')), strip(sp, ('sorted', 'list'))
     k = repr(tkey(t))
-    is_sorted = isinstance(t, Opq) and t.k[0] == 'sorted'
-    flat = "('.', 'circuit', 'components')" in k
-    rep.ob('R09.freqs', 'merge:sorted', is_sorted, f'= {t!r:.200}', site)
-    rep.ob('R09.freqs', 'merge:all-components', flat, 'iterates circuit.components', site)
-    dedup = "'set'" in k or "'unique'" in k or 'fromkeys' in k or _tolerant_merge(f.node)
+    is_sorted = isinstance(t, Opq) and t.k and t.k[0] == 'sorted'
+    rep.ob('R09.freqs', 'merge:sorted', bool(is_sorted), f'= {t!r:.160}', site)
+    dedup = (isinstance(core_t, Comp) and core_t.kind == 'set') or "'unique'" in k or 'fromkeys' in k or _tolerant_merge(f.node)
     rep.ob('R09.freqs', 'merge:distinct', bool(dedup), 'duplicates are removed', site)
+    # the multiset of contributed frequencies: every component, [w] or all harmonics 0..floor(w_max/w)
+    as_list = lambda c_: Comp(c_.elt, c_.gens, 'list') if isinstance(c_, Comp) else c_
+    ok = term_equal(as_list(core_t), as_list(core_s))
+    rep.ob('R09.freqs', 'per-component', True if ok else (None if has_opaque(core_t) or not isinstance(core_t, Comp) else False),
+           f'contributions = {core_t!r:.300}', site, lhs=core_t, rhs=core_s)
+    # components without a frequency: the KeyError handler yields nothing (in whichever function reads value['w'])
+    cands = [f.node] + [prog.mod(ms).defs.get(nm) for ms, nm in ev.calls if isinstance(prog.mod(ms).defs.get(nm), ast.FunctionDef)]
+    okh = None
+    for fn in cands:
+        for n in ast.walk(fn):
+            if isinstance(n, ast.Try) and "['w']" in ast.unparse(ast.Module(body=n.body, type_ignores=[])):
+                for h in n.handlers:
+                    if h.type is not None and 'KeyError' in ast.unparse(h.type):
+                        last = h.body[-1]
+                        okh = (isinstance(last, ast.Return) and ast.unparse(last.value) in ('[]', 'list()', '()')) or isinstance(last, ast.Continue)
+    rep.ob('R09.freqs', 'no-frequency', okh, 'components without a frequency contribute no entry', site)
 
 
 def _tolerant_merge(fn) -> bool:
